@@ -520,3 +520,91 @@ class WireTap:
                 continue
             out.append(rec)
         return out
+
+
+class FileConnWatch:
+    """Finds file (F) connections between simulated hosts from the sender-side writes and tells
+    where the file bytes start, so that faults can be placed at an exact *file* byte.
+
+    Direct F connection (uploader connects):   uploader writes PeerInit(F) frame, then the 4-byte
+    ticket, then file data; the downloader writes the 8-byte offset.
+    Pierced F connection (downloader connects): downloader writes PeerPierceFirewall, then the
+    offset; the uploader writes the ticket, then file data.
+    """
+
+    def __init__(self, world, uploader: str, downloader: str):
+        from .net import Tap
+        self.world = world
+        self.uploader = uploader
+        self.downloader = downloader
+        self.fconns: list[dict] = []        # {'conn', 'dir' (data direction), 'header', 'opened_at', 'offset', 'sent', 'delivered'}
+        self.on_file_conn = None            # callback(rec) when the data start is known
+        self._state: dict[int, dict] = {}
+        outer = self
+
+        class _T(Tap):
+            def on_write(self, conn, direction, data):
+                outer._on_write(conn, direction, data)
+
+            def on_data(self, conn, direction, data):
+                outer._on_data(conn, direction, data)
+        world.net.taps.append(_T())
+
+    def _on_write(self, conn, direction, data):
+        names = {conn.src.name, conn.dst.name}
+        if names != {self.uploader, self.downloader}:
+            return
+        st = self._state.setdefault(conn.id, {'writes': {'c2s': [], 's2c': []}, 'rec': None, 'kind': None})
+        writer = conn.src.name if direction == 'c2s' else conn.dst.name
+        st['writes'][direction].append(len(data))
+        if st['kind'] is None and direction == 'c2s' and len(st['writes']['c2s']) == 1:
+            # first write of the opener: init family, clear or obfuscated
+            try:
+                frame = data
+                if conn.dst_addr[1] in (60001, 50001):
+                    from aioslsk.protocol import obfuscation
+                    frame = obfuscation.decode(data)
+                msg = M.PeerInitializationMessage.deserialize_request(frame)
+            except Exception:
+                st['kind'] = 'other'
+                return
+            if isinstance(msg, M.PeerInit.Request):
+                st['kind'] = 'direct-' + msg.typ
+            else:
+                st['kind'] = 'pierce'
+            return
+        if st['kind'] == 'direct-F' and writer == self.uploader and st['rec'] is None:
+            if direction == 'c2s' and len(st['writes']['c2s']) == 2:
+                header = sum(st['writes']['c2s'])
+                st['rec'] = self._new(conn, 'c2s', header)
+            return
+        if st['kind'] == 'pierce' and writer == self.uploader and st['rec'] is None and direction == 's2c':
+            if len(data) == 4 and len(st['writes']['s2c']) == 1:
+                st['rec'] = self._new(conn, 's2c', 4)
+            else:
+                st['kind'] = 'pierce-other'
+            return
+        rec = st['rec']
+        if rec is not None:
+            if writer == self.uploader and direction == rec['dir']:
+                rec['sent'] += len(data)
+            elif writer == self.downloader and rec['offset'] is None and len(data) == 8:
+                rec['offset'] = struct.unpack('<Q', data)[0]
+                rec['offset_at'] = self.world.loop.time()
+
+    def _new(self, conn, direction, header):
+        rec = {'conn': conn, 'dir': direction, 'header': header, 'opened_at': self.world.loop.time(),
+               'offset': None, 'sent': 0, 'delivered': 0, 'n': len(self.fconns)}
+        self.fconns.append(rec)
+        if self.on_file_conn is not None:
+            self.on_file_conn(rec)
+        return rec
+
+    def _on_data(self, conn, direction, data):
+        st = self._state.get(conn.id)
+        if st is None or st['rec'] is None:
+            return
+        rec = st['rec']
+        if direction == rec['dir']:
+            pipe = conn.pipe(direction)
+            rec['delivered'] = max(pipe.delivered - rec['header'], 0)
